@@ -66,6 +66,8 @@ CELL_SHAPES = {
     "TEXT": (AText.TEXT, ["char"]),
     "TEXT2": (AText.TEXT, ["char", "char"]),
     "PADDED": (AText.TEXT, ["blank", "char", "blank"]),
+    # other white space (a tab, a form feed, a no-break space) between blanks: str.strip() removes it, but it is no blank
+    "BLANK-TAB-BLANK": (AText.BLANKS, ["blank", "tab", "blank"]),
 }
 
 
@@ -88,6 +90,7 @@ def validated_run(model, ch, cls_qualname=BASE):
         allowed = True
         label = "%s%d" % (char_kind, index)
         char = Char(char_kind == "blank", True, label)
+        char.whitespace = char_kind == "tab"
         if has_allowed_characters == "range":
             allowed = ch.choose(("character %d allowed" % index), [True, False])
             code = ("s", char.code.key())
@@ -204,8 +207,16 @@ def validated_oracle(run):
     # 1. logically empty cell (fixed-width data: a cell consisting only of blanks) - decided before anything else: the
     #    character guard is stated for NON-EMPTY cells, so a blank fixed cell is empty even if the blank is not among the
     #    allowed characters
-    logically_empty = run["kind"] == AText.EMPTY or (fixed and run["kind"] == AText.BLANKS)
+    only_blanks = all(char.blank for char in run["chars"])
+    logically_empty = run["kind"] == AText.EMPTY or (fixed and only_blanks)
     length = len(run["chars"])
+    if fixed and run["kind"] == AText.BLANKS and not only_blanks:
+        # blanks and other white space: not "a cell consisting only of blanks", so the character guard applies; what
+        # such a cell is when all its characters are allowed is not stated (str.strip() makes it empty) - not compared
+        if any(not char.allowed for char in run["chars"]):
+            problem = verdict_is("FieldValueError")
+            return ("cell of blanks and other white space with a disallowed character: " + problem) if problem else "conforms"
+        return "conforms"
     if fixed and length > 0:
         over_width = interp.order.sign(("c", length), ("s", run["width"].key())) > 0
     else:
